@@ -17,6 +17,7 @@ def run(rep, tier):
     tol.r_parity(rep, f)
     tol.r_parity_hinit(rep, f)
     tol.r_grade_solvers(rep, f)
+    tol.r_grade_norm_helpers(rep, f)
     tol.r_grade_hinit(rep, f)
     rep.explanation = ("Decides the structural part of the symmetries: parity of every time-like quantity under reflection, homogeneity of every step-size decision input under scaling and duplication, "
                        "and alias-freedom of scalar tolerances. NOT decided: bit-identity itself (needs rounding/associativity reasoning per operation) and mirroring accuracy of event times.")
